@@ -7,6 +7,7 @@ answer to the first request of a fresh client and then ends the connection (`eof
 open (`hold`, only used with `k` = whole stream).  Answer: what the caller of the real client
 must observe — `fail` or `ok code=… body=…` — and how many connections the client will have
 dialled after a second request (`dials=1` iff the model's `connReusable` allows reuse).
+Mode `early`: connection kept open, but the caller closes the body without reading it.
 -/
 namespace Req.Driver.L.C03
 open Req.Proto Req.H1
@@ -16,16 +17,17 @@ def laneCut : List String → String
     match decodeHex hex, ks.toNat? with
     | some s, some k =>
       if meth != "G" && meth != "H" then "bad-op"
-      else if mode != "eof" && mode != "hold" then "bad-op"
+      else if mode != "eof" && mode != "hold" && mode != "early" then "bad-op"
       else
         let isHead := meth == "H"
         let o := parseFinal isHead 4096 (s.take k)
-        let env : ReuseEnv := ⟨false, isHead, false, mode == "eof", true, true, true⟩
+        let env : ReuseEnv := ⟨false, isHead, false, mode == "eof", true, true, mode != "early"⟩
         let dials := if connReusable o env then "1" else "2"
         match o with
         | .reject => "fail dials=" ++ dials
         | .resp m b =>
-          if b.ok then "ok code=" ++ toString m.sl.code ++ " body=" ++ encodeHex b.data ++ " dials=" ++ dials
+          if mode == "early" then "ok-early code=" ++ toString m.sl.code ++ " dials=" ++ dials
+          else if b.ok then "ok code=" ++ toString m.sl.code ++ " body=" ++ encodeHex b.data ++ " dials=" ++ dials
           else "fail dials=" ++ dials
     | _, _ => "bad-op"
   | _ => "bad-op"
